@@ -1,9 +1,9 @@
 (* Extraction of the executable models and specifications for the correspondence check.
    Only ExtrOcamlBasic is used: bool, option, list, prod, unit, sumbool map to the OCaml types;
    Z, N, positive, nat stay the extracted inductive types. No Extract Constant. *)
-(* DEPS: Base.v ScriptNum.v Gen/Consts.v Gen/Sites.v Gen/OpNames.v NumExpr.v Gen/NumOps.v Script.v Interp.v Session.v Value.v Der.v Hashes.v Tx.v TxCli.v Codecs.v Gen/TfTable.v Transforms.v Gen/CliTables.v Cli.v TapTool.v Sighash.v Configure.v *)
+(* DEPS: Base.v ScriptNum.v Gen/Consts.v Gen/Sites.v Gen/OpNames.v NumExpr.v Gen/NumOps.v Script.v Interp.v Session.v Value.v Der.v Hashes.v Tx.v TxCli.v Codecs.v Gen/TfTable.v Transforms.v Gen/CliTables.v Cli.v TapTool.v Sighash.v Configure.v Pretend.v *)
 From Coq Require Import Extraction ExtrOcamlBasic.
-From BV Require Import Base ScriptNum Script Interp Session Value Der Hashes Tx TxCli Transforms Cli TapTool Sighash Configure.
+From BV Require Import Base ScriptNum Script Interp Session Value Der Hashes Tx TxCli Transforms Cli TapTool Sighash Configure Pretend.
 From BV.Gen Require Import Consts Sites OpNames CliTables.
 Extraction Language OCaml.
 Set Extraction Optimize.
@@ -18,4 +18,4 @@ Extraction "../ocaml/model.ml" sn_ctor sn_serialize sn_getint value_int_hex_str 
   do_exec tf_run print_value
   main_noninteractive svf_parse_flags svf_names session_listing marked_line main_initial_flags
   tce_new tce_iterate tap_run
-  configure setup_txdata pushonly_violation tx_checker signature_hash signature_hash_schnorr legacy_preimage bip143_preimage bip341_msg txdata_init.
+  configure setup_txdata pushonly_violation tx_checker signature_hash signature_hash_schnorr legacy_preimage bip143_preimage bip341_msg txdata_init parse_pretend_valid.
